@@ -9,7 +9,7 @@ EXPLANATION = ('Decides from MIR: (R14.1) the twelve candidates are initial with
                '(R14.2) a candidate outside the limits is withheld on the false edge of compliant(&candidate); (R14.3) skip-set soundness: with '
                'skip = {0..k-1} the extracted pair table (abstract interpretation of the enumeration, as for C10) still contains every relevant '
                'pair that has a moved member (links k..5 and the tool); (R14.4) the body\'s own safety table, first-collision mode, candidate kept '
-               'exactly on the empty-result edge, order-preserving parallel collect.  Mesh geometry is C10\'s and not decided.')
+               'exactly on the empty-result edge, order-preserving parallel collect.  The enumeration is interpreted as a whole first (the twelve candidates with and without limits, each candidate in turn refused by the limits and by the collision check); the structural reading is the fall-back.  (R11.5) non_colliding_offsets of the robot with shape is the query of its body, unchanged.  Mesh geometry is that of C10 and not decided.')
 NOT_DECIDED = 'geometry of the collision queries (C10)'
 ASSUMPTIONS = ['the initial configuration is collision free (precondition of the API): pairs of two unmoved bodies need no re-check']
 
